@@ -180,7 +180,38 @@ func CheckDictionary(r *Report, tag string, seg segment.Segment, m *model.Seg, r
 					it := dict.AutomatonIterator(na.a, start, end)
 					i := 0
 					sawOneHit := false
+					// a second enumeration of the same dictionary (all terms) runs
+					// interleaved with this one: each must see its own terms
+					var other segment.DictionaryIterator
+					oi := 0
+					otherStep := func() {
+						if other == nil {
+							return
+						}
+						e, err := other.Next()
+						switch {
+						case err != nil:
+							r.Fail("dict-iter-err", "%s: field %q full enumeration interleaved with aut %s [%q,%q): %v", tag, f, na.name, start, end, err)
+							other = nil
+						case e == nil:
+							if oi != len(terms) {
+								r.Fail("dict-iter-short", "%s: field %q full enumeration interleaved with aut %s [%q,%q): %d entries, want %d", tag, f, na.name, start, end, oi, len(terms))
+							}
+							other = nil
+						case oi >= len(terms) || e.Term != terms[oi]:
+							r.Fail("dict-iter-term", "%s: field %q full enumeration interleaved with aut %s [%q,%q): entry %d is %s", tag, f, na.name, start, end, oi, short([]byte(e.Term)))
+							other = nil
+						default:
+							oi++
+						}
+					}
+					interleave := (si+2*ei)%3 == 0
 					for {
+						if interleave && i == 1 && other == nil && oi == 0 {
+							other = dict.AutomatonIterator(nil, nil, nil)
+							r.Inc("dict_interleaved_enumerations", 1)
+						}
+						otherStep()
 						e, err := it.Next()
 						if err != nil {
 							r.Fail("dict-iter-err", "%s: field %q aut %s [%q,%q): %v", tag, f, na.name, start, end, err)
@@ -211,6 +242,9 @@ func CheckDictionary(r *Report, tag string, seg segment.Segment, m *model.Seg, r
 					}
 					if i < len(want) {
 						r.Fail("dict-iter-short", "%s: field %q aut %s [%q,%q): %d entries, want %d", tag, f, na.name, start, end, i, len(want))
+					}
+					for other != nil {
+						otherStep()
 					}
 					r.Inc("dict_iterations", 1)
 				}
